@@ -140,4 +140,4 @@ def obligations(tier, seed):
             pr = list(params) + [[n, 0, 8 if thorough else 7] for n in names]
             obs.append({"name": "edit/%s/%s" % (mname, ">".join(o[0] + (str(len(o[1])) if len(o) > 1 else "") for o in ops)), "harness": "edit",
                         "cube": dict(consts, spec=spec, ops=ops), "params": pr, "timeout": 900 if thorough else 150, "engine": "zsym"})
-    return obs
+    return profiles.split_param(obs, "i0")
